@@ -692,7 +692,9 @@ func (ex *Exec) rangeStmt(x *ast.RangeStmt, label string) {
 		ctx.idx, ctx.hasIdx = idx, true
 		ex.st = bodySt
 		bind(x.Key, idx, types.Typ[types.Int])
-		bind(x.Value, ex.wf(ex.U.SeqAt(coll, idx)), elemT)
+		ev := ex.wf(ex.U.SeqAt(coll, idx))
+		ex.closedWorld(ev, elemT)
+		bind(x.Value, ev, elemT)
 		ex.block(x.Body.List)
 		for _, cs := range ctx.conts {
 			ex.st = ex.merge(ex.st, cs)
